@@ -298,6 +298,12 @@ def run(ctx, load):
     check_assign_rebuilds(P, ctx, 'Tree', 'Tree_Clear', 'Tree_Set', rule)
     check_assign_rebuilds(P, ctx, 'Table', 'Table_Clear', 'Table_Set', rule)
     ctx.floor(rule, 5)
+    # eq compares two Tables slot by slot (parallel iteration): a cleared Table must be laid out like a fresh one — count, slot count and
+    # store reset together — or a Table that was once larger keeps a layout in which equal bindings iterate in another order
+    from . import rules_c02
+    Pt = load(rules_c02.UNITS, 'default')
+    ctx.config = 'default'
+    ctx.borrow('C10.cleared-like-fresh', 1, lambda: rules_c02.check_counts(Pt, ctx, rules_c02.check_probe(Pt, ctx)), only=lambda o: o['key'] == 'Table_Clear')
     # a removal from a Tree moves the predecessor's entry into the removed node: the moved value must arrive whole, or a tree that was
     # built with a removal differs from an equal one built without
     from .rules_c05 import tree_pred_copy_extent
